@@ -105,6 +105,8 @@ public:
               arg.append('"');
               p += 2;
             }
+            else
+              arg.append(*(p++));
             continue;
           default:
             arg.append(*(p++));
